@@ -28,6 +28,8 @@ from . import _an
 from . import C09 as S
 
 PROP = "C11"
+# obligations of the properties this one is downstream of are obligations of this check too (vk.runner.collect_obligations)
+UPSTREAM = ["C05"]
 GEN_REGIONS = ["Attrs", "CoreKernels", "NumpyKernels"]
 THEOREMS = {
     # the NumPy fallbacks reduce the per-segment products to the same mean and population scatter, for every chunk size
